@@ -224,8 +224,7 @@ Theorem C07_observers :
                      end /\ get_next s t = Ok (nth_error (abs s) (S k))) /\
   (forall (k1 k2 : nat) (a b : positive),
    nth_error (abs s) k1 = Some a ->
-   nth_error (abs s) k2 = Some b ->
-   (k1 <= k2)%nat -> iter_range s a b = Ok (firstn (k2 + 1 - k1) (skipn k1 (abs s)))) /\
+   nth_error (abs s) k2 = Some b -> iter_range s a b = Ok (firstn (k2 + 1 - k1) (skipn k1 (abs s)))) /\
   (forall t : positive,
    ~ In t (abs s) ->
    get_index s t = Err ValueError /\
@@ -237,6 +236,13 @@ Proof. exact observers_spec. Qed.
 
 Example C07_observers_nonvacuous : Inv ex_s /\ abs ex_s = ex_ids /\ length (s_blocks ex_s) = 4%nat.
 Proof. exact (conj (proj1 ex_inv) (conj (proj2 ex_inv) ex_blocks)). Qed.
+
+(* iter over a reversed pair lying in different blocks (token 6 = block 5, token 2 = block 2) yields nothing *)
+Example C07_iter_reversed_cross_block :
+  nth_error (abs ex_s) 5 = Some 6%positive /\ nth_error (abs ex_s) 1 = Some 2%positive /\
+  hnd ex_s 6%positive = Some (5%positive, 0) /\ hnd ex_s 2%positive = Some (2%positive, 1) /\
+  iter_range ex_s 6%positive 2%positive = Ok [].
+Proof. exact ex_iter_reversed. Qed.
 
 (* ---- constructors establish the invariant *)
 
@@ -255,6 +261,65 @@ Theorem C07_from_tokens :
   Inv s' /\
   abs s' = ts /\ (forall t : positive, txt s' t = t_text (tget tk t)) /\ s_id s' = sid /\ pure s'.
 Proof. exact from_tokens_spec. Qed.
+
+
+(* the same next to other stores (tokens of other stores carry other ids; only the new id must be unused);
+   from_tokens is accepted EXACTLY when every listed token is free and none is listed twice; otherwise it
+   raises ValueError, the store built so far is the discarded empty one, and the token map - text, size
+   and handle of every token, listed or not - is the one passed in *)
+
+Theorem C07_empty_store_general :
+  forall (sid : positive) (tk : tokmap),
+  sizes_ok tk -> fresh_id sid tk -> Inv (empty_store sid tk) /\ abs (empty_store sid tk) = [].
+Proof. exact empty_inv_gen. Qed.
+
+Theorem C07_from_tokens_general :
+  forall (LF : Z) (sid : positive) (tk : tokmap) (ts : list positive) (s' : store) (r : res unit),
+  1 <= LF ->
+  sizes_ok tk ->
+  fresh_id sid tk ->
+  all_free tk ts ->
+  NoDup ts ->
+  from_tokens LF sid tk ts = (s', r) ->
+  r = Ok tt /\
+  Inv s' /\
+  abs s' = ts /\
+  (forall t : positive, txt s' t = t_text (tget tk t)) /\
+  s_id s' = sid /\ (forall t : positive, ~ In t ts -> tget (s_toks s') t = tget tk t).
+Proof. exact from_tokens_gen. Qed.
+
+Theorem C07_from_tokens_refused :
+  forall (LF : Z) (sid : positive) (tk : tokmap) (ts : list positive),
+  ~ (all_free tk ts /\ NoDup ts) -> from_tokens LF sid tk ts = (empty_store sid tk, Err ValueError).
+Proof. exact from_tokens_refused. Qed.
+
+Theorem C07_from_tokens_iff :
+  forall (LF : Z) (sid : positive) (tk : tokmap) (ts : list positive),
+  1 <= LF ->
+  sizes_ok tk ->
+  fresh_id sid tk ->
+  (snd (from_tokens LF sid tk ts) = Ok tt <-> all_free tk ts /\ NoDup ts) /\
+  (snd (from_tokens LF sid tk ts) <> Ok tt ->
+   from_tokens LF sid tk ts = (empty_store sid tk, Err ValueError) /\
+   s_toks (fst (from_tokens LF sid tk ts)) = tk).
+Proof. exact from_tokens_iff. Qed.
+
+Theorem C07_step_from_tokens_refused :
+  forall (LF : Z) (s : store) (ts : list Z),
+  ~ (all_free (s_toks s) (map P ts) /\ NoDup (map P ts)) ->
+  step LF s (OFromTokens ts) = (s, Err ValueError).
+Proof. exact step_from_tokens_refused. Qed.
+
+Example C07_from_tokens_refusal_nonvacuous :
+  sizes_ok (s_toks ex_s) /\ fresh_id 2%positive (s_toks ex_s) /\
+  ~ (all_free (s_toks ex_s) [8; 8]%positive /\ NoDup [8; 8]%positive) /\
+  ~ (all_free (s_toks ex_s) [8; 3]%positive /\ NoDup [8; 3]%positive).
+Proof.
+  destruct ex_inv_pure as ([I _] & _ & Pu). split; [exact (g_sz _ _ I)|]. split.
+  - intros t sd b j H Esd. apply (Pu t). exists sd, b, j. split; [exact H|]. subst sd. discriminate.
+  - split; [intros [_ ND]; inversion ND as [|? ? N _]; subst; apply N; left; reflexivity|].
+    intros [Haf _]. specialize (Haf 3%positive (or_intror (or_introl eq_refl))). vm_compute in Haf. discriminate.
+Qed.
 
 Example C07_constructors_nonvacuous : clean ex_tk /\ NoDup ex_ids.
 Proof. exact (conj ex_clean ex_ids_nodup). Qed.
@@ -678,8 +743,7 @@ Theorem C07_link_Builder_store :
   abs s' = built /\
   (forall (k1 k2 : nat) (a b : positive),
    nth_error built k1 = Some a ->
-   nth_error built k2 = Some b ->
-   (k1 <= k2)%nat -> iter_range s' a b = Ok (firstn (k2 + 1 - k1) (skipn k1 built))).
+   nth_error built k2 = Some b -> iter_range s' a b = Ok (firstn (k2 + 1 - k1) (skipn k1 built))).
 Proof. exact StoreLinkMisc.link_builder_store. Qed.
 
 Example C07_link_positional_nonvacuous : Inv ex_s /\ (2 <= 5 <= length (abs ex_s))%nat /\
